@@ -41,8 +41,18 @@ func c09(args []string) error {
 	}
 	warmNext := false
 	one := func(s1, s2 string, sc sch, atg bool, tag string) {
-		warm := warmNext && !sc.usemat && !atg
+		warm := warmNext && !atg
 		warmNext = false
+		// which part of the scheme differs between the warm run and the recorded one: 0 = everything (all setters
+		// called again), 1 = the gap extension only, 2 = the gap opening only, 3 = the match score only - the
+		// second configuration then calls that one setter alone
+		warmKind := 0
+		if warm {
+			warmKind = r.Intn(4)
+			if sc.usemat && (warmKind == 0 || warmKind == 3) {
+				warmKind = 1 + r.Intn(2)
+			}
+		}
 		scale := scaleOf(sc)
 		q1 := align.NewSequence("s1", []uint8(s1), "")
 		q2 := align.NewSequence("s2", []uint8(s2), "")
@@ -55,7 +65,7 @@ func c09(args []string) error {
 		var st1, st2, en1, en2, nm, nmm, ng, ln int
 		class, _ := guarded(10e9, func() error {
 			pw := align.NewPwAligner(q1, q2, algo)
-			if warm {
+			if warm && warmKind == 0 {
 				if r.Intn(2) == 0 {
 					pw.SetScore(sc.match+3, sc.mis)
 				}
@@ -65,11 +75,42 @@ func c09(args []string) error {
 					return e
 				}
 			}
-			if !sc.usemat {
-				pw.SetScore(sc.match, sc.mis)
+			if warm && warmKind != 0 {
+				wm, wo, we := sc.match, sc.op, sc.ext
+				switch warmKind {
+				case 1:
+					we = sc.ext / 2
+					if r.Intn(2) == 0 {
+						we = sc.ext - 1
+					}
+				case 2:
+					wo = sc.op - 1
+				case 3:
+					wm = sc.match + 3
+				}
+				if !sc.usemat {
+					pw.SetScore(wm, sc.mis)
+				}
+				pw.SetGapOpenScore(wo)
+				pw.SetGapExtendScore(we)
+				if _, e := pw.Alignment(); e != nil {
+					return e
+				}
+				switch warmKind {
+				case 1:
+					pw.SetGapExtendScore(sc.ext)
+				case 2:
+					pw.SetGapOpenScore(sc.op)
+				case 3:
+					pw.SetScore(sc.match, sc.mis)
+				}
+			} else {
+				if !sc.usemat {
+					pw.SetScore(sc.match, sc.mis)
+				}
+				pw.SetGapOpenScore(sc.op)
+				pw.SetGapExtendScore(sc.ext)
 			}
-			pw.SetGapOpenScore(sc.op)
-			pw.SetGapExtendScore(sc.ext)
 			_, e := pw.Alignment()
 			if e != nil {
 				return e
